@@ -31,6 +31,16 @@ Theorem C08_lock_discipline_holds :
 Proof. exact facts_discipline. Qed.
 Print Assumptions C08_lock_discipline_holds.
 
+(* every call of every operation consists of at most ONE outermost critical section (and the goroutines
+   it starts open none), along every path: the discipline makes each critical section atomic
+   (C08_critical_sections_are_isolated, C08_micro_steps_reduce_to_atomic_sections); a call is one
+   atomic step of the sequential specification only if it does not split its work over two sections
+   (check-then-act over a released lock is race-free and still not linearizable). *)
+Theorem C08_every_operation_is_one_critical_section :
+  Forall (fun I => atomicity_violations I = []) facts.
+Proof. exact facts_one_section_per_call. Qed.
+Print Assumptions C08_every_operation_is_one_critical_section.
+
 (* no data race and no unlock of an unheld mutex, in any reachable configuration, for any number of
    goroutines and any interleaving *)
 Theorem C08_no_data_race_no_lock_misuse :
